@@ -132,4 +132,6 @@ func (w *W) ClientValue() (unspent, pending uint64, err error) {
 	return
 }
 
-func (w *W) String() string { return fmt.Sprintf("world(%d proofs, %d quotes, %d melts)", len(w.Proofs), len(w.Quotes), len(w.Melts)) }
+func (w *W) String() string {
+	return fmt.Sprintf("world(%d proofs, %d quotes, %d melts)", len(w.Proofs), len(w.Quotes), len(w.Melts))
+}
